@@ -3,6 +3,7 @@
    followed by [Print Assumptions].  The harness re-checks this file on every run. *)
 From Coq Require Import List Arith Lia.
 From PV Require Import C13.Model C13.Proofs.
+From PV Require MiniPy.Syntax MiniPy.Interp Gen.C13Src C13.SrcRun C13.Tie.
 Import ListNotations.
 
 (* "the sampler's length is the number of indices it yields" *)
@@ -109,3 +110,45 @@ Proof.
   repeat split; try lia; try discriminate.
   repeat constructor; cbn; intuition discriminate.
 Qed.
+
+(* ---- the tie to the source text ----------------------------------------------------------
+   PV.Gen.C13Src is regenerated from /repo/src/pydrobert/torch/_dataloaders.py on every run
+   (harness/py2coq/translate.py); PV.MiniPy.Interp is the semantics of the translated subset.
+   The theorems below are about those regenerated terms: constructing a sampler, asking its
+   length and iterating it k times - as the Python source text does it - yields exactly what
+   Model.run yields, so every theorem above is a theorem about the source. *)
+Theorem c13_source_refines_model : forall n dist m e0 orders, dist_ok dist ->
+  SrcRun.src_run n dist m e0 orders = Some (Model.run n dist m e0 orders).
+Proof. exact Tie.src_run_tie. Qed.
+Print Assumptions c13_source_refines_model.
+
+Theorem c13_source_init_is_model : forall order n dist m e0, dist_ok dist ->
+  SrcRun.init_expected n dist m e0
+    (Interp.run (SrcRun.ext13 order) C13Src.aes_init (SrcRun.init_vars n dist m e0)).
+Proof. exact Tie.init_tie. Qed.
+Print Assumptions c13_source_init_is_model.
+
+Theorem c13_source_len_is_model : forall ext s, rank s < world s ->
+  Interp.run ext C13Src.aes_len (SrcRun.self_vars s)
+  = Interp.Ok (SrcRun.zn (len s)) (SrcRun.st_of s []).
+Proof. exact Tie.len_tie. Qed.
+Print Assumptions c13_source_len_is_model.
+
+Theorem c13_source_iter_is_model : forall order s, 0 < world s ->
+  exists st,
+    Interp.run (SrcRun.ext13 order) C13Src.aes_iter (SrcRun.self_vars s)
+      = Interp.Ok (SrcRun.vnats (fst (next order s))) st /\
+    SrcRun.self_in st = Some (SrcRun.self_of (snd (next order s))).
+Proof. exact Tie.iter_tie. Qed.
+Print Assumptions c13_source_iter_is_model.
+
+(* composed with the model theorems: a statement purely about the translated source -
+   the length the source's __len__ reports is the number of indices the source's __iter__ yields *)
+Theorem c13_source_len_eq_yielded : forall order s, wf s -> length (order (epoch s)) = total s ->
+  exists ys st st',
+    Interp.run (SrcRun.ext13 order) C13Src.aes_iter (SrcRun.self_vars s)
+      = Interp.Ok (SrcRun.vnats ys) st /\
+    Interp.run (SrcRun.ext13 order) C13Src.aes_len (SrcRun.self_vars s)
+      = Interp.Ok (SrcRun.zn (length ys)) st'.
+Proof. exact Tie.source_len_eq_yielded. Qed.
+Print Assumptions c13_source_len_eq_yielded.
